@@ -92,8 +92,10 @@ pub fn emit_step<T: Sc>(out: &mut Out, cid: &str, prop: &str, target: &AnyTarget
     let hx = |v: &[f64]| v.iter().map(|x| T::from64(*x).hex()).collect::<Vec<_>>().join(" ");
     let dirs: Vec<f64> = tr.doublings.iter().map(|d| d.0).collect();
     let acc: Vec<f64> = tr.doublings.iter().map(|d| d.4).collect();
+    let with_stat = prop == "C03";
     let case = format!(
-        "c03 {cid} {} {} ; {} ; {} ; {} ; {} ; {} ; {} ; {}",
+        "{} {cid} {} {} ; {} ; {} ; {} ; {} ; {} ; {} ; {}",
+        if with_stat { "c03" } else { "c03x" },
         T::NAME,
         T::from64(tr.eps).hex(),
         target.spec::<T>(),
@@ -114,12 +116,12 @@ pub fn emit_step<T: Sc>(out: &mut Out, cid: &str, prop: &str, target: &AnyTarget
     let n_final = tr.doublings.last().map(|d| d.5).unwrap_or(1);
     let stat = tr.alpha / tr.n_alpha as f64;
     let line = format!(
-        "{cid} {} {} {} | {} # {} {}",
+        "{cid} {} {} {} | {} # {}{}",
         tr.depth,
         n_final,
         tr.n_alpha,
         parts.join(" | "),
-        T::from64(stat).tok(),
+        if with_stat { format!("{} ", T::from64(stat).tok()) } else { String::new() },
         tr.pos1.iter().map(|x| T::from64(*x).tok()).collect::<Vec<_>>().join(" ")
     );
     out.case(case, line);
